@@ -1305,7 +1305,6 @@ fn check_scalar(acc: &mut Acc) {
 pub fn run_c20(ctx: &Ctx) -> i32 {
     let tier = ctx.tier;
     let sg = sigma();
-    let sub8: Vec<f64> = vec![0.0, -0.0, 1.0, -1.0, 1.0 / 3.0, f64::from_bits(1), f64::MAX, 0.1];
     let nparts = 64;
     let dev = tier.pick(3, 4);
     let mut acc = par_for(nparts + 1, |part, acc| {
